@@ -168,9 +168,10 @@ Inductive offer_res :=
 | OfferErr (c' : option cobj)                       (* ValueError; object possibly pruned *)
 | Offer (h : hello) (used : option cobj).           (* hello sent; the (pruned) session in use *)
 
-(* `fixed` selects the repaired client (proposed_fixes/C13-1.diff): a non-empty session_id
-   always accompanies a ticket so that the server's echo can be recognised. *)
-Definition client_offer (fixed : bool) (cp : cparams) (c0 : option cobj) (now fresh : Z)
+(* Repaired client (/repo 51120a0, RFC 5077 3.4): a non-empty session_id always accompanies a
+   ticket so that the server's echo can be recognised.  Before that commit the session_id stayed
+   empty here unless TLS 1.3 was offered (finding F1). *)
+Definition client_offer (cp : cparams) (c0 : option cobj) (now fresh : Z)
   : offer_res :=
   let c1 := match c0 with Some c => if c_valid c then Some c else None | None => None end in
   (* session_ticket extension: prune, then first ticket or empty *)
@@ -182,7 +183,7 @@ Definition client_offer (fixed : bool) (cp : cparams) (c0 : option cobj) (now fr
                 | Some c => match c_t10 c with t :: _ => Some (tk_blob t) | [] => None end
                 | None => None end in
   let fake_sid := if 4 <=? cp_maxv cp then fresh
-                  else if fixed && (match ticket with Some _ => true | None => false end) then fresh
+                  else if (match ticket with Some _ => true | None => false end) then fresh
                   else 0 in
   match c2 with
   | Some c =>
@@ -291,7 +292,7 @@ Definition server_try_resume (cfg : scfg) (st : list centry) (acc : list Z) (h :
 (* ---- server: TLS 1.3 PSK selection (_serverTLS13Handshake) ------------------- *)
 Inductive sdec13 := S13Psk (k : Z) (p : payload) | S13Full | S13Abort (alert : Z).
 
-Definition server_psk (cfg : scfg) (cp : cparams) (h : hello) : sdec13 :=
+Definition server_psk (cfg : scfg) (cp : cparams) (h : hello) (now : Z) : sdec13 :=
   match h_psk h with
   | None => S13Full
   | Some (b, binder_key) =>
@@ -300,20 +301,21 @@ Definition server_psk (cfg : scfg) (cp : cparams) (h : hello) : sdec13 :=
            | None => S13Full
            | Some (k, p) =>
                if negb (p_ver p =? 4) then S13Full
+               else if p_created p + sv_life cfg <? now then S13Full   (* /repo e172bf7; absent before *)
                else if negb (p_hash p =? o_fhash cp) then S13Full
                else if negb (binder_key =? p_ms p) then S13Abort illegal_parameter
-               else S13Psk k p     (* NB: no lifetime / ticket-age check in the code *)
+               else S13Psk k p
            end
   end.
 
 (* ---- client: did the server resume?  (_clientResume) ------------------------- *)
-Definition client_resume_branch (fixed : bool) (used : option cobj) (h : hello) (sh_sid : Z) : bool :=
+(* Repaired client (/repo 51120a0): resumption iff the server echoed the non-empty session_id of
+   the ClientHello.  Before: (nz sid_c && sh_sid = sid_c) || nonempty tls_1_0_tickets, i.e. ANY
+   ServerHello counted as a resumption while the session held a ticket (finding F1). *)
+Definition client_resume_branch (used : option cobj) (h : hello) (sh_sid : Z) : bool :=
   match used with
   | None => false
-  | Some c =>
-      if fixed
-      then nz sh_sid && (sh_sid =? h_sid h) && (nz (s_sid (c_sess c)) || nonempty (c_t10 c))
-      else (nz (s_sid (c_sess c)) && (sh_sid =? s_sid (c_sess c))) || nonempty (c_t10 c)
+  | Some c => nz sh_sid && (sh_sid =? h_sid h) && (nz (s_sid (c_sess c)) || nonempty (c_t10 c))
   end.
 
 (* ---- the world ---------------------------------------------------------------- *)
@@ -393,7 +395,7 @@ Definition apply_delta (w : world) (cp : cparams) (d : delta) : world :=
   mk_world (w_now w) (w_fresh w + d_bump d) svs cls (w_conns w ++ [d_conn d]) (w_log w ++ [d_log d])
            (match d_issue d with Some (k, p) => w_issued w ++ [(cp_srv cp, k, p)] | None => w_issued w end).
 
-Definition conn_delta (fixed : bool) (w : world) (cp : cparams) (sv : server) : delta :=
+Definition conn_delta (w : world) (cp : cparams) (sv : server) : delta :=
   let now := w_now w in
   let ci := Z.of_nat (length (w_log w)) in           (* index of this connection *)
   let fresh := w_fresh w in                          (* fresh, fresh+1, ... are unused handles *)
@@ -407,7 +409,7 @@ Definition conn_delta (fixed : bool) (w : world) (cp : cparams) (sv : server) : 
   let closed_conn := {| cr_srv := cp_srv cp; cr_sobj := None; cr_cobj := None; cr_open := false;
                         cr_ks := false; cr_kc := false |} in
   let cidx := Z.of_nat (length (w_clients w)) in     (* index a new client object will get *)
-  match client_offer fixed cp c0 now fresh with
+  match client_offer cp c0 now fresh with
   | OfferErr c' =>
       {| d_store := None; d_used := c'; d_newc := None; d_conn := closed_conn;
          d_log := log0 0 None None OClientErr None None None; d_issue := None; d_bump := 4 |}
@@ -419,7 +421,7 @@ Definition conn_delta (fixed : bool) (w : world) (cp : cparams) (sv : server) : 
     if 4 <=? v then
       (* ---------------- TLS 1.3 ---------------- *)
       if o_fsuite cp =? 0 then abort None (OAbortS (o_falert cp)) else
-      match server_psk cfg cp h with
+      match server_psk cfg cp h now with
       | S13Abort a => abort None (OAbortS a)
       | d =>
         let resumed := match d with S13Psk _ _ => true | _ => false end in
@@ -456,7 +458,7 @@ Definition conn_delta (fixed : bool) (w : world) (cp : cparams) (sv : server) : 
       | SAbort a => abort (Some st1) (OAbortS a)
       | SResume s o =>
           (* ServerHello: session_id = s_sid s, suite = s_suite s *)
-          if client_resume_branch fixed used h (s_sid s) then
+          if client_resume_branch used h (s_sid s) then
             match used with
             | Some c =>
                 if negb (s_suite s =? s_suite (c_sess c)) then abort (Some st1) (OAbortC illegal_parameter)
@@ -474,7 +476,7 @@ Definition conn_delta (fixed : bool) (w : world) (cp : cparams) (sv : server) : 
       | SFull =>
           if o_fsuite cp =? 0 then abort (Some st1) (OAbortS (o_falert cp)) else
           let sid := if sv_usecache cfg then fresh + 1 else 0 in
-          if client_resume_branch fixed used h sid then
+          if client_resume_branch used h sid then
             (* the client takes the ServerHello for a resumption *)
             match used with
             | Some c => if negb (o_fsuite cp =? s_suite (c_sess c)) then abort (Some st1) (OAbortC illegal_parameter)
@@ -510,10 +512,10 @@ Definition conn_delta (fixed : bool) (w : world) (cp : cparams) (sv : server) : 
       end
   end.
 
-Definition conn_step (fixed : bool) (w : world) (cp : cparams) : world :=
+Definition conn_step (w : world) (cp : cparams) : world :=
   match zget (w_servers w) (cp_srv cp) with
   | None => w
-  | Some sv => apply_delta w cp (conn_delta fixed w cp sv)
+  | Some sv => apply_delta w cp (conn_delta w cp sv)
   end.
 
 (* ---- the other events ----------------------------------------------------------- *)
@@ -569,9 +571,9 @@ Definition close_step (w : world) (c kind : Z) : world :=
                (w_log w) (w_issued w)
   end.
 
-Definition step (fixed : bool) (w : world) (e : event) : world :=
+Definition step (w : world) (e : event) : world :=
   match e with
-  | EConn cp => conn_step fixed w cp
+  | EConn cp => conn_step w cp
   | EClose c k => close_step w c k
   | ETick dt => mk_world (w_now w + Z.max 0 dt) (w_fresh w) (w_servers w) (w_clients w) (w_conns w)
                          (w_log w) (w_issued w)
@@ -593,7 +595,7 @@ Definition step (fixed : bool) (w : world) (e : event) : world :=
   | EDevSni ci x => on_client w ci (fun c => set_csess c (sess_with_sni (c_sess c) x))
   end.
 
-Definition run (fixed : bool) (h : list event) (w : world) : world := fold_left (step fixed) h w.
+Definition run (h : list event) (w : world) : world := fold_left step h w.
 
 Definition init_world (cfgs : list scfg) : world :=
   mk_world 0 1 (map (fun c => {| sv_cfg := c; sv_store := [] |}) cfgs) [] [] [] [].
@@ -612,8 +614,8 @@ Definition sopen (k : Z) (b : sblob) : option payload :=
   | _ => None
   end.
 
-Definition srun (fixed : bool) (cfgs : list scfg) (h : list event) : world sblob :=
-  run sblob Sealed sopen Tampered Junk fixed h (init_world sblob cfgs).
+Definition srun (cfgs : list scfg) (h : list event) : world sblob :=
+  run sblob Sealed sopen Tampered Junk h (init_world sblob cfgs).
 
 (* ---- what the correspondence compares, per connection --------------------------- *)
 Arguments tk_blob {blob}.
@@ -681,8 +683,8 @@ Fixpoint obs_eqb (a b : list (list Z)) : bool :=
   | _, _ => false
   end.
 
-Definition sobserve (fixed : bool) (cfgs : list scfg) (h : list event) : list (list Z) :=
-  map observe (w_log (srun fixed cfgs h)).
+Definition sobserve (cfgs : list scfg) (h : list event) : list (list Z) :=
+  map observe (w_log (srun cfgs h)).
 
-Definition chk_hist (fixed : bool) (c : list scfg * list event * list (list Z)) : bool :=
-  let '(cfgs, h, expected) := c in obs_eqb (sobserve fixed cfgs h) expected.
+Definition chk_hist (c : list scfg * list event * list (list Z)) : bool :=
+  let '(cfgs, h, expected) := c in obs_eqb (sobserve cfgs h) expected.
